@@ -129,7 +129,7 @@ PROPS = {
         rule="BFS over histories on arrays created with capacity 0,1,2,default: add, put_idx/insert_idx at {0,len-1,len,len+1,len+3,SIZE_MAX-1,SIZE_MAX} with an element or NULL, "
              "del_idx(i,n) with i in {0,len-1,len,len+1,SIZE_MAX} and n in {0,1,len-i,len-i+1,SIZE_MAX}, shrink(0,1,len); get_idx over 0..len+2 after each step; states merged on "
              "(length, capacity, null pattern); plus sort/bsearch on every array over {0,1,2} up to the length bound; non-trivial = distinct state / distinct sorted input",
-        bound=dict(quick="depth 6 (creation + 5 operations), length capped at 13; sort inputs <= 6 elements", thorough="depth 10; sort inputs <= 7 elements"),
+        bound=dict(quick="depth 6 (creation + 5 operations) from 6 initial states (capacities 0,1,2,default, pre-filled to 31 and 32), growth capped at +13; sort inputs <= 6 elements", thorough="depth 8 from 9 initial states (capacities 0,1,2,default and arrays pre-filled to 31,32,33,63,64 elements); sort inputs <= 7 elements"),
         states_stat="states", transitions_stat="transitions",
         technique="explicit-state BFS of operation histories on the real array (ASan build, poison-filled allocator), list reference model and exact release-set oracle",
         claim="after every transition length, element identity at every index, NULL past the end, return code and the exact set of elements destroyed equal a plain list model; "
